@@ -22,7 +22,8 @@ EXTENDS ReqResp, SequencesExt, FiniteSetsExt, Json
 CONSTANTS Peers,      \* responder nodes, e.g. {2, 3}; the requester is node 1
           MaxReq,     \* number of requests the user may issue
           MaxConc,    \* responders' bound on concurrent inbound requests (NoLimit = none)
-          MaxConn,    \* connections that may be established per peer
+          MaxConn,    \* connections that may be established in total
+          MaxCancel,  \* cancel_request calls the user may make
           Fixed,      \* tags of known defects modelled as repaired
           Refuse,     \* the manager may drop an accepted dial command silently (connection limit)
           KeepHist    \* record the stimulus history (behaviour generation)
@@ -45,10 +46,10 @@ VARIABLES
   mgr,       \* peer -> "disc" | "conn"    (TransportManager peer state)
   mdial,     \* peer -> dial in flight
   svc,       \* peer -> connection (incarnation number) held in TransportService.connections, 0 = none
-  sids,      \* substream id -> [p, i, st]  i: connection, st: req | opened | failed | dead
+  sids,      \* substream id -> [p, i, st]  substreams requested from connection i and not yet reported
   nconn,     \* peer -> connections established so far; the live one is number nconn[p] while mgr[p] = "conn"
   \* responders
-  rq,        \* request id -> none | sent | delivered | dropped | answered | rejected
+  rq,        \* request id -> none | sent | delivered | dropped | answered | rejected | over
   inb,       \* peer -> requests shown to its user and not yet answered / rejected
   tgt,       \* request id -> peer
   \* bookkeeping
@@ -79,6 +80,8 @@ Init ==
 \* connection number i with peer p is still alive
 ConnAlive(p, i) == mgr[p] = "conn" /\ nconn[p] = i /\ i # 0
 
+TotalConn == FoldSet(LAMBDA p, acc : acc + nconn[p], 0, Peers)
+
 Drop(f, k) == [x \in DOMAIN f \ {k} |-> f[x]]
 FailEvs(M, S) == FoldSet(LAMBDA r, acc : MonFailEv(acc, R, r), M, S)
 SeqFailEvs(M, s) == FoldLeft(LAMBDA acc, r : MonFailEv(acc, R, r), M, s)
@@ -98,6 +101,7 @@ UIssue(p, d) ==
 
 UCancel(r) ==
   /\ r < nrid /\ mon.req[r].st = "open" /\ ~mon.req[r].canc
+  /\ Cardinality({k \in DOMAIN mon.req : mon.req[k].canc}) < MaxCancel
   /\ cmdq' = Append(cmdq, [c |-> "cancel", rid |-> r, p |-> 0, d |-> ""])
   /\ mon' = MonCancel(mon, R, r)
   /\ hist' = H([a |-> "cancel", r |-> r])
@@ -257,14 +261,17 @@ PFut(r, res) ==
        ELSE UNCHANGED <<active, mon>>
   /\ fut' = Drop(fut, r)
   /\ cancels' = cancels \ {r}
+  \* what the responder does with a request whose requester has given up is not observable by
+  \* the requester any more; a request already shown to the responder's user keeps its slot
+  /\ rq' = [rq EXCEPT ![r] = IF @ = "delivered" THEN @ ELSE "over"]
   /\ hist' = IF res = "err" THEN H([a |-> "timeout", r |-> r]) ELSE hist
-  /\ UNCHANGED <<inpeers, pdial, pout, evq, cmdq, evars, rvars, kf, nrid, nsid>>
+  /\ UNCHANGED <<inpeers, pdial, pout, evq, cmdq, evars, inb, tgt, kf, nrid, nsid>>
 
 -----------------------------------------------------------------------------
 (* environment: connection manager, connection tasks                        *)
 
 EDialOk(p) ==
-  /\ mdial[p] /\ nconn[p] < MaxConn
+  /\ mdial[p] /\ (mgr[p] = "disc" => TotalConn < MaxConn)
   /\ mdial' = [mdial EXCEPT ![p] = FALSE]
   /\ IF mgr[p] = "disc" THEN
        /\ mgr' = [mgr EXCEPT ![p] = "conn"]
@@ -283,7 +290,7 @@ EDialFail(p) ==
 
 \* the peer connects to us (or the user dialed it beforehand)
 EInbound(p) ==
-  /\ mgr[p] = "disc" /\ nconn[p] < MaxConn
+  /\ mgr[p] = "disc" /\ TotalConn < MaxConn
   /\ mgr' = [mgr EXCEPT ![p] = "conn"]
   /\ nconn' = [nconn EXCEPT ![p] = @ + 1]
   /\ evq' = Append(evq, [k |-> "est", x |-> p, i |-> nconn[p] + 1])
@@ -295,20 +302,20 @@ EInbound(p) ==
 EClose(p) ==
   /\ mgr[p] = "conn"
   /\ mgr' = [mgr EXCEPT ![p] = "disc"]
-  /\ sids' = [s \in DOMAIN sids |-> IF sids[s].p = p /\ sids[s].st = "req" THEN [sids[s] EXCEPT !.st = "dead"] ELSE sids[s]]
+  /\ sids' = [s \in {x \in DOMAIN sids : sids[x].p # p} |-> sids[s]]
   /\ evq' = Append(evq, [k |-> "closed", x |-> p, i |-> 0])
   /\ hist' = H([a |-> "close", p |-> p])
   /\ UNCHANGED <<inpeers, active, pdial, pout, fut, cancels, cmdq, mdial, svc, nconn, rvars, mon, kf, nrid, nsid>>
 
 ESubOpen(s) ==
   /\ s \in DOMAIN sids /\ sids[s].st = "req" /\ ConnAlive(sids[s].p, sids[s].i)
-  /\ sids' = [sids EXCEPT ![s].st = "opened"]
+  /\ sids' = Drop(sids, s)
   /\ evq' = Append(evq, [k |-> "subopen", x |-> s, i |-> 0])
   /\ UNCHANGED <<inpeers, active, pdial, pout, fut, cancels, cmdq, mgr, mdial, svc, nconn, rvars, mon, kf, hist, nrid, nsid>>
 
 ESubFail(s) ==
   /\ s \in DOMAIN sids /\ sids[s].st = "req"
-  /\ sids' = [sids EXCEPT ![s].st = "failed"]
+  /\ sids' = Drop(sids, s)
   /\ evq' = Append(evq, [k |-> "subfail", x |-> s, i |-> 0])
   /\ hist' = H([a |-> "subfail", r |-> IF s \in DOMAIN pout THEN pout[s].rid ELSE -1])
   /\ UNCHANGED <<inpeers, active, pdial, pout, fut, cancels, cmdq, mgr, mdial, svc, nconn, rvars, mon, kf, nrid, nsid>>
@@ -331,7 +338,7 @@ RDeliver(r) ==
 
 RAnswer(r) ==
   /\ rq[r] = "delivered"
-  /\ rq' = [rq EXCEPT ![r] = "answered"]
+  /\ rq' = [rq EXCEPT ![r] = IF r \in DOMAIN fut THEN "answered" ELSE "over"]
   /\ inb' = [inb EXCEPT ![tgt[r]] = @ \ {r}]
   /\ mon' = MonAnswer(mon, tgt[r], r, A(r))
   /\ hist' = H([a |-> "answer", r |-> r])
@@ -339,7 +346,7 @@ RAnswer(r) ==
 
 RReject(r) ==
   /\ rq[r] = "delivered"
-  /\ rq' = [rq EXCEPT ![r] = "rejected"]
+  /\ rq' = [rq EXCEPT ![r] = IF r \in DOMAIN fut THEN "rejected" ELSE "over"]
   /\ inb' = [inb EXCEPT ![tgt[r]] = @ \ {r}]
   /\ mon' = MonReject(mon, tgt[r], r)
   /\ hist' = H([a |-> "reject", r |-> r])
